@@ -735,6 +735,10 @@ func filterCmd(args []string) error {
 			c := fCase{Kind: k, Imm: rnd.Intn(3) == 0, Scope: fScope{Triples: [][]string{}}}
 			c.Pre = prePopulate(rnd, &back0)
 			ops := randOps(rnd, cat, *steps, "all", false)
+			if k != "sub" && rnd.Intn(2) == 0 {
+				// the checking wrappers hand the caller's context on as it is
+				c.Scope = randScope(rnd, back0.Repos, "x", nil)
+			}
 			switch k {
 			case "checker":
 				ids := polErrIDs[:1+rnd.Intn(len(polErrIDs))]
